@@ -884,7 +884,11 @@ func (p *parser) parseConditionalExpression() ast.Expression {
 		}
 		p.next()
 
+		// The middle operand is an AssignmentExpression, never a NoIn variant.
+		allowIn := p.scope.allowIn
+		p.scope.allowIn = true
 		consequent := p.parseAssignmentExpression()
+		p.scope.allowIn = allowIn
 		if p.mode&StoreComments != 0 {
 			p.comments.Unset()
 		}
